@@ -193,3 +193,162 @@ Proof.
     eapply spec_conv; [exact (new_bin_unit_sound I s _ idx a b s' v Ha Hb Hc H)|]. reflexivity. }
   exact (new_bin_unit_sound I s _ idx a b s' v Ha Hb Hc H).
 Qed.
+
+(* ---------------------------------------------------------------- Python operators on values *)
+Definition ring_py (py sc : string) : Prop :=
+  (py = "add" /\ sc = "+") \/ (py = "sub" /\ sc = "-") \/ (py = "mul" /\ sc = "*").
+
+Lemma py_binop_sound : forall I s py sc a b s' v, wf_val s a -> wf_val s b -> ring_py py sc ->
+  py_binop T s py a b = Ok (s', v) ->
+  spec I s s' v (bin_sem I sc (val_den (D I s) a) (val_den (D I s) b)).
+Proof.
+  intros I s py sc a b s' v Ha Hb Hr H.
+  assert (Hsc : sc_opname T py = Some sc /\ exists idx, sc_spindex_opname T sc = Some (idx, sc)).
+  { destruct Hr as [[? ?] | [[? ?] | [? ?]]]; subst; split; try (vm_compute; reflexivity); eexists; vm_compute; reflexivity. }
+  destruct Hsc as [Hsc [idx Hidx]].
+  assert (Hgen : (if ugen_ok s a && ugen_ok s b then
+                    match sc_opname T py with Some n => ctor_bin T s n a b | None => Err EException end
+                  else Err EType) = Ok (s', v) ->
+                 spec I s s' v (bin_sem I sc (val_den (D I s) a) (val_den (D I s) b))).
+  { intro H0. destruct (ugen_ok s a && ugen_ok s b); [|discriminate]. rewrite Hsc in H0.
+    exact (ctor_bin_sound I s sc idx a b s' v Ha Hb Hidx H0). }
+  destruct a as [x | ua ca], b as [y | ub cb]; try (apply Hgen; exact H).
+  unfold py_binop in H. rewrite !val_den_K.
+  destruct Hr as [[? ?] | [[? ?] | [? ?]]]; subst; simpl in H; injection H as ? ?; subst;
+    apply spec_same; try (simpl; constructor); rewrite val_den_K, Q2Qc_red; unfold bin_sem; simpl.
+  - apply Q2Qc_plus.
+  - apply Q2Qc_minus.
+  - apply Q2Qc_mult.
+Qed.
+
+Lemma py_unop_neg_sound : forall I s a s' v, wf_val s a -> py_unop T s "neg" a = Ok (s', v) ->
+  spec I s s' v (- val_den (D I s) a)%Qc.
+Proof.
+  intros I s a s' v Ha H. apply (vneg_sound I s a s' v Ha).
+  destruct a; unfold py_unop in H; unfold vneg; simpl in H; exact H.
+Qed.
+
+(* chaining two constructions *)
+Lemma spec_chain : forall I s s1 s' p v f, ext s s1 -> wf_val s1 p ->
+  spec I s1 s' v f -> ext s s' /\ wf_val s' v /\ val_den (D I s') v = f.
+Proof. intros I s s1 s' p v f He Hp [He2 [Hw Hv]]. split; [eapply ext_trans; eauto|]. auto. Qed.
+
+(* ---------------------------------------------------------------- MulAdd._new1 *)
+Lemma new_plain_unit_den : forall I s s' u k c r l n w i d tg pu mu iu wfu ck,
+  u = List.length (units s) ->
+  units s' = units s ++ [mkU u c r l n 0%Z "" k pu mu iu wfu ck w i d tg] ->
+  spec I s s' (O u 0) (nthq (unit_sem I k c "" tg n 0%Z (map (val_den (D I s)) l)) 0).
+Proof.
+  intros. destruct (new_unit_den I s s' u _ H H0) as (He & Hwf & Hn).
+  split; [exact He|]. split; [exact Hwf|]. simpl. rewrite Hn. reflexivity.
+Qed.
+
+Lemma ctor_muladd_sound : forall I s i m a s' v, wf_val s i -> wf_val s m -> wf_val s a ->
+  ctor_muladd T s i m a = Ok (s', v) ->
+  spec I s s' v (val_den (D I s) i * val_den (D I s) m + val_den (D I s) a)%Qc.
+Proof.
+  intros I s i m a s' v Hi Hm Ha H. unfold ctor_muladd in H.
+  destruct (kis m 0) eqn:K0. { injection H as ? ?; subst. kcase K0. apply spec_same; auto. qc_consts. ring. }
+  destruct (kis m 1 && kis a 0) eqn:K1.
+  { apply andb_true_iff in K1; destruct K1 as [Ka Kb]. injection H as ? ?; subst. kcase Ka. kcase Kb.
+    apply spec_same; auto. qc_consts. ring. }
+  destruct (kis m (-1) && kis a 0) eqn:K2.
+  { apply andb_true_iff in K2; destruct K2 as [Ka Kb]. kcase Ka. kcase Kb.
+    eapply spec_conv; [exact (py_unop_neg_sound I s i s' v Hi H)|]. qc_consts. ring. }
+  destruct (kis a 0) eqn:K3.
+  { kcase K3. eapply spec_conv; [exact (py_binop_sound I s "mul" "*" i m s' v Hi Hm (or_intror (or_intror (conj eq_refl eq_refl))) H)|].
+    unfold bin_sem; simpl. qc_consts. ring. }
+  destruct (kis m (-1)) eqn:K4.
+  { kcase K4. eapply spec_conv; [exact (py_binop_sound I s "sub" "-" a i s' v Ha Hi (or_intror (or_introl (conj eq_refl eq_refl))) H)|].
+    unfold bin_sem; simpl. qc_consts. ring. }
+  destruct (kis m 1) eqn:K5.
+  { kcase K5. eapply spec_conv; [exact (py_binop_sound I s "add" "+" i a s' v Hi Ha (or_introl (conj eq_refl eq_refl)) H)|].
+    unfold bin_sem; simpl. qc_consts. ring. }
+  destruct (can_be_muladd s i m a).
+  { destruct (create s _ false) as [s1 u] eqn:Ec. injection H as ? ?; subst s1 v.
+    destruct (create_spec _ _ _ _ _ Ec) as [Hu [w [k Hs]]].
+    eapply spec_conv; [eapply new_plain_unit_den; eauto|]. simpl. reflexivity. }
+  destruct (can_be_muladd s m i a).
+  { destruct (create s _ false) as [s1 u] eqn:Ec. injection H as ? ?; subst s1 v.
+    destruct (create_spec _ _ _ _ _ Ec) as [Hu [w [k Hs]]].
+    eapply spec_conv; [eapply new_plain_unit_den; eauto|]. simpl. unfold nthq; simpl. ring. }
+  (* (input * mul) + add *)
+  destruct (py_binop T s "mul" i m) as [[s1 p] | e] eqn:E1; simpl in H; [|discriminate].
+  pose proof (py_binop_sound I s "mul" "*" i m s1 p Hi Hm (or_intror (or_intror (conj eq_refl eq_refl))) E1) as [He1 [Hp Hv1]].
+  pose proof (py_binop_sound I s1 "add" "+" p a s' v Hp (wf_val_ext _ _ _ He1 Ha) (or_introl (conj eq_refl eq_refl)) H) as [He2 [Hw Hv2]].
+  split; [eapply ext_trans; eauto|]. split; [exact Hw|].
+  rewrite Hv2. unfold bin_sem in *; simpl in *. rewrite Hv1. rewrite (val_den_ext I s s1 a He1 Ha). reflexivity.
+Qed.
+
+(* ---------------------------------------------------------------- Sum3._new1 / Sum4._new1 *)
+Require Import SC3.proofs.C20_arrange.
+From Coq Require Import Permutation.
+
+Lemma fold_left_plus : forall l a, fold_left Qcplus l a = (a + fold_right Qcplus 0%Qc l)%Qc.
+Proof. induction l as [|x t IH]; intro a; simpl; [ring | rewrite IH; ring]. Qed.
+Lemma qsum_fr : forall l, qsum l = fold_right Qcplus 0%Qc l.
+Proof. intro l. unfold qsum. rewrite fold_left_plus. change (Q2Qc 0) with 0%Qc. ring. Qed.
+Lemma fr_perm : forall l l', Permutation l l' -> fold_right Qcplus 0%Qc l = fold_right Qcplus 0%Qc l'.
+Proof. induction 1; simpl; try congruence; ring. Qed.
+Lemma qsum_perm : forall l l', Permutation l l' -> qsum l = qsum l'.
+Proof. intros. rewrite !qsum_fr. apply fr_perm; assumption. Qed.
+
+Lemma sum_unit_den : forall I s s' u k c r l w i,
+  (k = KSum3 \/ k = KSum4) -> u = List.length (units s) ->
+  units s' = units s ++ [mkU u c r (sort_by (fun v => rate_strkey (vrate s v)) l) 1 0%Z "" k false false true false ChkValid w i None 0] ->
+  spec I s s' (O u 0) (qsum (map (val_den (D I s)) l)).
+Proof.
+  intros I s s' u k c r l w i Hk Hu Hs.
+  eapply spec_conv; [eapply new_plain_unit_den; eauto|].
+  destruct Hk; subst k; simpl; unfold nthq; simpl; apply qsum_perm; apply Permutation_map; apply sort_by_perm.
+Qed.
+
+Lemma sum3_new1_sound : forall I s a b c s' v, wf_val s a -> wf_val s b -> wf_val s c ->
+  sum3_new1 T s a b c = Ok (s', v) ->
+  spec I s s' v (val_den (D I s) a + val_den (D I s) b + val_den (D I s) c)%Qc.
+Proof.
+  intros I s a b c s' v Ha Hb Hc H. unfold sum3_new1 in H.
+  pose (ADD := or_introl (conj eq_refl eq_refl) : ring_py "add" "+").
+  destruct (kis c 0) eqn:K1.
+  { kcase K1. eapply spec_conv; [exact (py_binop_sound I s "add" "+" a b s' v Ha Hb ADD H)|]. unfold bin_sem; simpl. qc_consts. ring. }
+  destruct (kis b 0) eqn:K2.
+  { kcase K2. eapply spec_conv; [exact (py_binop_sound I s "add" "+" a c s' v Ha Hc ADD H)|]. unfold bin_sem; simpl. qc_consts. ring. }
+  destruct (kis a 0) eqn:K3.
+  { kcase K3. eapply spec_conv; [exact (py_binop_sound I s "add" "+" b c s' v Hb Hc ADD H)|]. unfold bin_sem; simpl. qc_consts. ring. }
+  destruct (create s _ false) as [s1 u] eqn:Ec. injection H as ? ?; subst s1 v.
+  destruct (create_spec _ _ _ _ _ Ec) as [Hu [w [k Hs]]].
+  eapply spec_conv; [eapply (sum_unit_den I s s' u KSum3); eauto|].
+  rewrite qsum_fr. simpl. ring.
+Qed.
+
+Lemma sum4_new1_sound : forall I s a b c d s' v, wf_val s a -> wf_val s b -> wf_val s c -> wf_val s d ->
+  sum4_new1 T s a b c d = Ok (s', v) ->
+  spec I s s' v (val_den (D I s) a + val_den (D I s) b + val_den (D I s) c + val_den (D I s) d)%Qc.
+Proof.
+  intros I s a b c d s' v Ha Hb Hc Hd H. unfold sum4_new1 in H.
+  destruct (kis a 0) eqn:K1.
+  { kcase K1. eapply spec_conv; [exact (sum3_new1_sound I s b c d s' v Hb Hc Hd H)|]. qc_consts. ring. }
+  destruct (kis b 0) eqn:K2.
+  { kcase K2. eapply spec_conv; [exact (sum3_new1_sound I s a c d s' v Ha Hc Hd H)|]. qc_consts. ring. }
+  destruct (kis c 0) eqn:K3.
+  { kcase K3. eapply spec_conv; [exact (sum3_new1_sound I s a b d s' v Ha Hb Hd H)|]. qc_consts. ring. }
+  destruct (kis d 0) eqn:K4.
+  { kcase K4. eapply spec_conv; [exact (sum3_new1_sound I s a b c s' v Ha Hb Hc H)|]. qc_consts. ring. }
+  destruct (create s _ false) as [s1 u] eqn:Ec. injection H as ? ?; subst s1 v.
+  destruct (create_spec _ _ _ _ _ Ec) as [Hu [w [k Hs]]].
+  eapply spec_conv; [eapply (sum_unit_den I s s' u KSum4); eauto|].
+  rewrite qsum_fr. simpl. ring.
+Qed.
+
+(* ---------------------------------------------------------------- the algebra of the optimiser's rewrites *)
+(* each rewrite replaces the left-hand side by a unit denoting the right-hand side *)
+Lemma rewrite_algebra : forall p q b x y : Qc,
+  ((p + q) + b = qsum [p; q; b]                      (* Sum3 *)
+   /\ (p + q) + (p + q) = qsum [p; p; q; q]          (* Sum3, `a is b` -> Sum4 *)
+   /\ b + (p + q) = qsum [p; q; b]
+   /\ qsum [p; q; x] + b = qsum [p; q; x; b]         (* Sum4 *)
+   /\ b + qsum [p; q; x] = qsum [p; q; x; b]
+   /\ (x * y) + b = x * y + b /\ (x * y) + b = y * x + b /\ b + (x * y) = x * y + b /\ b + (x * y) = y * x + b   (* MulAdd *)
+   /\ x + (- y) = x - y /\ (- x) + y = y - x         (* addneg *)
+   /\ x - (- y) = x + y)%Qc.                         (* sub *)
+Proof. intros. rewrite !qsum_fr. simpl. repeat split; ring. Qed.
